@@ -44,8 +44,66 @@ def attrC24 : AttrFn := fun c o _ =>
     else none
   | _ => none
 
+mutual
+/-- does some node of the plan (subqueries and CTE definitions included) satisfy `f`? -/
+def anyNode (f : Query → Bool) : Query → Bool
+  | .scan t => f (.scan t)
+  | .cteRef i => f (.cteRef i)
+  | .values rows => f (.values rows)
+  | .filter subs p q => f (.filter subs p q) || anyNodeL f subs || anyNode f q
+  | .project subs es q => f (.project subs es q) || anyNodeL f subs || anyNode f q
+  | .join jt lw rw subs on l r => f (.join jt lw rw subs on l r) || anyNodeL f subs || anyNode f l || anyNode f r
+  | .agg keys aggs q => f (.agg keys aggs q) || anyNode f q
+  | .groupingSets keys sets aggs q => f (.groupingSets keys sets aggs q) || anyNode f q
+  | .distinct q => f (.distinct q) || anyNode f q
+  | .sort keys q => f (.sort keys q) || anyNode f q
+  | .limit s fe q => f (.limit s fe q) || anyNode f q
+  | .setop op all l r => f (.setop op all l r) || anyNode f l || anyNode f r
+  | .window calls q => f (.window calls q) || anyNode f q
+  | .withCte defs body => f (.withCte defs body) || anyNodeL f defs || anyNode f body
+def anyNodeL (f : Query → Bool) : List Query → Bool
+  | [] => false
+  | q :: qs => anyNode f q || anyNodeL f qs
+end
+
+def isAggNode : Query → Bool
+  | .agg _ _ _ | .groupingSets _ _ _ _ | .distinct _ => true
+  | _ => false
+def isJoinNode : Query → Bool
+  | .join _ _ _ _ _ _ _ => true
+  | _ => false
+def hasSubqueryExpr : Query → Bool
+  | .filter subs _ _ | .project subs _ _ | .join _ _ _ subs _ _ _ => !subs.isEmpty
+  | _ => false
+def isSetopNode : Query → Bool
+  | .setop _ _ _ _ => true
+  | _ => false
+
+/-- C01 inherits the defects of the operator properties.  Exact attribution where the defect is mirrored by a model
+    (set operations at the top of the statement: C01-F24a NULLs / C01-F24b ALL multiplicities); otherwise signature +
+    neutraliser (DESIGN §3.4): a WRONG ANSWER (never a panic) over tables that contain NULLs whose `nonull`-neutralised
+    case passes the oracle on the real code, classified by the constructs present:
+      C01-F21 aggregation / DISTINCT / grouping sets   (C21: NULL keys and NULL inputs of accumulators)
+      C01-F23 subquery expressions, no aggregation     (C23: NULL operands of IN / scalar subqueries)
+      C01-F22 joins, no aggregation, no subquery       (C22: NULL join keys / NULL-extended rows)
+      C01-F24a set operations below the top level       (C24: NULLs not distinct) -/
+def attrC01 : AttrFn := fun c o spec =>
+  match o with
+  | .ok out =>
+    if Engine.SetOps.hasTopSetop c.plan then
+      (attrC24 c o spec).map (fun id => if id == "C24-F1" then "C01-F24a" else "C01-F24b")
+    else if hasNull c && neutralPasses c then
+      if anyNode isAggNode c.plan then some "C01-F21"
+      else if anyNode hasSubqueryExpr c.plan then some "C01-F23"
+      else if anyNode isJoinNode c.plan then some "C01-F22"
+      else if anyNode isSetopNode c.plan then some "C01-F24a"
+      else none
+    else let _ := out; none
+  | _ => none
+
 def attrByProp : AttrFn := fun c o spec =>
   match c.prop with
+  | "C01" => attrC01 c o spec
   | "C24" => attrC24 c o spec
   | _ => none
 
